@@ -48,7 +48,9 @@ def run(rep, tier, seed):
         rows = None
         if j["bad"]:
             rows = read_ndjson(evall)
-        for b in j["bad"][:300]:
+        for b in j["bad"]:
+            if len(rep.violations) >= 300:
+                break
             e = rows[b["i"] - 1]
             why = sorted(set(b["why"]) & TAGS)
             if not why:
